@@ -82,6 +82,16 @@ func (s scalarSpec) value() *big.Int {
 		v.Sub(new(big.Int).Lsh(big.NewInt(1), uint(1+s.N%252)), big.NewInt(1))
 	case "uniform":
 		v = hx.ExpandFr(s.Seed, "uniform", 0)
+	case "word": // one 64-bit word with the top bit set (N selects 2^63, 2^64-1 or a seed-derived word)
+		switch s.N % 3 {
+		case 0:
+			v.Lsh(big.NewInt(1), 63)
+		case 1:
+			v.SetUint64(^uint64(0))
+		default:
+			v.And(hx.Expand(s.Seed, "word", 0), new(big.Int).SetUint64(^uint64(0)))
+			v.SetBit(v, 63, 1)
+		}
 	case "montraw": // small internal (Montgomery) representation: N * 2^-256 mod r
 		v.Mul(big.NewInt(int64(s.N)), new(big.Int).ModInverse(new(big.Int).Lsh(big.NewInt(1), 256), ref.R))
 	case "limbs":
@@ -117,12 +127,15 @@ func (s scalarSpec) label() string {
 	return s.Kind
 }
 
-var scalarKinds = []string{"montraw", "zero", "one", "small", "small", "rminus", "pow2", "pow2m1", "uniform", "uniform", "limbs", "limbs", "windows", "windows", "windows"}
+var scalarKinds = []string{"word", "montraw", "zero", "one", "small", "small", "rminus", "pow2", "pow2m1", "uniform", "uniform", "limbs", "limbs", "windows", "windows", "windows"}
 
 // genScalar draws a scalar recipe. widths lists the window widths whose digit boundaries matter to the caller.
 func genScalar(t *rapid.T, label string, widths []int) scalarSpec {
 	s := scalarSpec{Kind: rapid.SampledFrom(scalarKinds).Draw(t, label+"_kind")}
 	switch s.Kind {
+	case "word":
+		s.N = rapid.IntRange(0, 2).Draw(t, label+"_n")
+		s.Seed = rapid.Uint64().Draw(t, label+"_seed")
 	case "small", "montraw":
 		s.N = rapid.IntRange(2, 70000).Draw(t, label+"_n")
 	case "rminus":
